@@ -254,5 +254,5 @@ fn oracle(c: &SymCase, rec: &Rec, _: &Ctx) -> Result<(), String> {
 }
 
 pub fn parts() -> Vec<PartDef> {
-    vec![part("constructed", 300_000, 9_000_000, |_| strat(false), oracle), part("histories", 600, 20_000, |_| strat(true), oracle)]
+    vec![part("constructed", 2_000_000, 40_000_000, |_| strat(false), oracle), part("histories", 3_000, 60_000, |_| strat(true), oracle)]
 }
